@@ -12,7 +12,7 @@ BED = 200.0
 
 OTHER_CODES = ["M117 layer %d", "M204 P%d T1000", "M204 S%d", "M205 X%d", "M73 P%d R10", "G4 P%d",
                "M106 S%d", "M104 S%d", "M105", "T0", "M220 S%d", "M400", "M9999 X%d", "M117 hello world",
-               "M73 P%d", "M205 J0.0%d", "G29", "M82"]
+               "M73 P%d", "M205 J0.0%d", "G29"]
 AT_NOOP = ["@ExcludeRegion status", "@ExcludeRegion", "@foo bar", "@ExcludeRegion enabled-ish",
            "@excluderegion disable", "@ExcludeRegionX disable", "@pausex", "@ExcludeRegion  xdisable"]
 TERMINAL = ["M105", "M114", "M117 from terminal", "M106 S0", "M155 S2", "M73 P1"]
@@ -391,24 +391,62 @@ class G(object):
 
     def at_switch(self):
         r = self.r
-        if self.enabled:
-            text = r.choice(["@ExcludeRegion disable", "@ExcludeRegion off", "@ExcludeRegion  disable now"])
+        custom = self.k.get("custom_at")
+        redundant = r.random() < 0.15   # disable while disabled / enable while enabled
+        want_disable = self.enabled ^ redundant
+        if want_disable:
+            pool = ["@ExcludeRegion disable", "@ExcludeRegion off", "@ExcludeRegion  disable now"]
+            if custom:
+                pool = ["@Excl stop", "@RegionsOff", "@RegionsOff whatever"] + (pool if custom == "both" else [])
             self.enabled = False
             self.ep = False
         else:
-            text = r.choice(["@ExcludeRegion enable", "@ExcludeRegion on"])
+            pool = ["@ExcludeRegion enable", "@ExcludeRegion on"]
+            if custom:
+                pool = ["@Excl go", "@Excl gone", "@RegionsOn", "@RegionsOn x"] + (pool if custom == "both" else [])
             self.enabled = True
-            # after re-enabling, the next *move* decides; until then no episode
-            self.ep = False
-        self.ops.append({"op": "line", "text": text})
+            self.ep = False   # after re-enabling, the next *move* decides
+            if self.k.get("after_enable_moves"):
+                self.after_enable = r.randrange(1, 4)
+        self.ops.append({"op": "line", "text": r.choice(pool)})
+
+    def settings_change(self):
+        """Deferral modes / scripts / flags change; only while no episode is open (executor enforces it)."""
+        r = self.r
+        what = r.choice(["modes", "enter", "exit", "flags"])
+        st = {}
+        if what == "modes":
+            st["extendedExcludeGcodes"] = rand_deferral_config(r)
+            self.k["configured"] = [e["gcode"] for e in st["extendedExcludeGcodes"]]
+        elif what == "enter":
+            st["enteringExcludedRegionGcode"] = rand_script(r, "ENTER")
+        elif what == "exit":
+            st["exitingExcludedRegionGcode"] = rand_script(r, "EXIT")
+        else:
+            st["clearRegionsAfterPrintFinishes"] = False
+        self.ops.append({"op": "settings", "set": st, "needs_no_episode": True})
 
     def misc(self, kind):
         r = self.r
         if kind == "other":
-            t = r.choice(self.k.get("other_codes", OTHER_CODES))
-            if "%d" in t:
-                t = t % r.randrange(1, 999)
+            conf = self.k.get("configured")
+            if conf and r.random() < self.k.get("p_configured", 0.7):
+                t = rand_code_line(r, r.choice(conf))
+            else:
+                t = r.choice(self.k.get("other_codes", OTHER_CODES))
+                if "%d" in t:
+                    t = t % r.randrange(1, 999)
             self.emit(op="line", text=t)
+        elif kind == "settings_change":
+            self.settings_change()
+        elif kind == "script_hook":
+            self.emit(op="script_hook", name=r.choice(["beforePrintStarted", "afterPrintCancelled",
+                      "afterPrintPaused", "beforePrintResumed", "afterPrinterConnected", "snippets/foo",
+                      "afterPrintDone"]), type=r.choice(["snippets", "foo", "GCODE"]))
+            if r.random() < 0.5:
+                self.ops[-1]["type"] = "gcode"
+                self.ops[-1]["name"] = r.choice(["beforePrintStarted", "afterPrintCancelled", "afterPrintPaused",
+                                                 "beforePrintResumed", "afterprintdone", "afterPrintDone2"])
         elif kind == "at_noop":
             self.emit(op="line", text=r.choice(AT_NOOP))
         elif kind == "terminal":
@@ -459,6 +497,12 @@ class G(object):
         weights = [k["w"][x] for x in kinds]
         for _ in range(n):
             kind = self.r.choices(kinds, weights)[0]
+            if getattr(self, "after_enable", 0) > 0 and kind not in ("at_switch",):
+                # right after re-enabling prefer single-axis (and relative) moves: they depend on the
+                # position tracked while exclusion was off
+                self.after_enable -= 1
+                self.move(axes=self.r.choice(["X", "Y", "Z", "X", "Y"]))
+                continue
             if kind == "move":
                 self.move()
             elif kind == "arc":
@@ -485,6 +529,10 @@ class G(object):
         r, k = self.r, self.k
         if self.retracted and k.get("close_cycles", True):
             self.retract_cycle_step()
+        if k.get("p_end_inside") and self.regions and self.enabled and r.random() < k["p_end_inside"]:
+            self.move(aim="into", axes="XY")
+            for _ in range(r.randrange(0, 3)):
+                self.misc("other")
         if clean is None:
             clean = r.random() >= k.get("p_abort", 0.15)
         if clean:
@@ -497,12 +545,76 @@ class G(object):
         self.ep = False
         if k.get("clear_after"):
             self.regions = {}
+        if k.get("hook_after_end"):
+            for _ in range(r.randrange(0, 3)):
+                self.emit(op="script_hook", type="gcode",
+                          name=r.choice(["afterPrintDone", "afterPrintDone", "afterPrintCancelled"]))
 
 
 BASE_W = {"move": 55, "arc": 0, "retract": 10, "region_add": 3, "region_grow": 1.5, "region_shrink": 1,
           "region_refused": 1, "other": 8, "at_noop": 1.5, "terminal": 2, "pump": 1, "clock": 1, "logfail": 0.5,
           "pause": 0.7, "api_get": 0.5, "settings_same": 0.5, "g92e": 2, "mode": 0, "units": 0, "g92xyz": 0,
-          "at_switch": 0, "sd_stream_at": 0}
+          "at_switch": 0, "sd_stream_at": 0, "settings_change": 0, "script_hook": 0}
+
+
+MERGE_CODES = ["M204", "M205", "M73", "M900", "M220", "M221"]
+TEXT_CODES = ["M117", "M118", "G4", "M300", "M106", "M107", "M150"]
+MERGE_LETTERS = "PTSXYZRKJ"
+
+
+def rand_deferral_config(rng):
+    """2-6 configured codes: numeric-parameter codes for merge, string/any codes for exclude/first/last."""
+    out = []
+    for code in rng.sample(MERGE_CODES, rng.randrange(1, 4)):
+        out.append({"gcode": code, "mode": rng.choice(["merge", "merge", "first", "last", "exclude"]),
+                    "description": "sim"})
+    for code in rng.sample(TEXT_CODES, rng.randrange(1, 4)):
+        out.append({"gcode": code, "mode": rng.choice(["exclude", "first", "last"]), "description": "sim"})
+    rng.shuffle(out)
+    return out
+
+
+def rand_code_line(rng, code):
+    if code in MERGE_CODES:
+        letters = rng.sample(MERGE_LETTERS, rng.randrange(1, 4))
+        return code + "".join(" %s%s" % (l, rng.choice([str(rng.randrange(0, 2000)),
+                                                        "%.2f" % rng.uniform(0, 50)])) for l in letters)
+    if code in ("M117", "M118"):
+        return "%s msg %d of %d" % (code, rng.randrange(100), rng.randrange(100))
+    if code == "G4":
+        return "G4 %s%d" % (rng.choice("PS"), rng.randrange(0, 500))
+    return "%s S%d" % (code, rng.randrange(0, 255))
+
+
+def rand_script(rng, tag):
+    """Multi-line script setting with comments, blank lines and a non-action @-command."""
+    if rng.random() < 0.25:
+        return None
+    lines = []
+    for i in range(rng.randrange(1, 4)):
+        kind = rng.random()
+        if kind < 0.5:
+            body = "M117 %s %d" % (tag, i)
+        elif kind < 0.8:
+            body = "M900 K0.%d%d" % (i, rng.randrange(1, 9)) if tag == "ENTER" else "M901 Q%d.%d" % (i, rng.randrange(1, 9))
+        else:
+            body = "@verifnoop %s%d" % (tag.lower(), i)
+        if rng.random() < 0.3:
+            body = "  " + body
+        if rng.random() < 0.3:
+            body += " ; comment %d" % i
+        lines.append(body)
+        if rng.random() < 0.3:
+            lines.append(rng.choice(["", "   ", "; only a comment"]))
+    return rng.choice(["\n", "\n", "\r\n"]).join(lines) + rng.choice(["", "\n"])
+
+
+CUSTOM_AT = [
+    {"command": "Excl", "parameterPattern": "^stop$", "action": "disable_exclusion", "description": "sim"},
+    {"command": "Excl", "parameterPattern": "^go", "action": "enable_exclusion", "description": "sim"},
+    {"command": "RegionsOff", "parameterPattern": None, "action": "disable_exclusion", "description": "sim"},
+    {"command": "RegionsOn", "parameterPattern": "", "action": "enable_exclusion", "description": "sim"},
+]
 
 
 def knobs(rng, profile):
